@@ -89,6 +89,13 @@ class DlHistories(Stream):
             slow = ia == 1 or ea == 1
             n = rng.range(1, 8 if slow else 40) if quick else rng.range(1, 40)
             scs.append(scenario(rng, ia, ea, rng.choice(["octet", "carry", "wrap24", "mid"]), n, rng.chance(1, 2)))
+        # messages longer than 4096 octets (DL NAS TRANSPORT with a large payload container), ciphered
+        for ia, ea in ([(2, 2), (1, 1)] if quick else L.PAIRS):
+            sc = scenario(rng, ia, ea, "mid", 2, False)
+            sc["spec"]["items"].append([L.long_msg(rng, rng.choice([4100, 4200, 5000]), False).hex(), 2, 1])
+            sc["spec"]["items"].append([L.pick_msg(rng, True).hex(), 2, 1])
+            sc["kind"] = "long-message"
+            scs.append(sc)
         return reference_packets(scs)
 
     def go_case(self, c):
